@@ -522,6 +522,9 @@ class Interp(object):
             return "int"
         if is_number(v):
             return "real"
+        if ops.is_sym(v):
+            sort = v.sort()
+            return lambda ctx: z3.Const(ctx.fresh_name("havoc"), sort)
         raise Unsupported("cannot havoc value %r (needs explicit kind)" % (v,))
 
     def resolve_path(self, root_env, path, node=None):
@@ -567,8 +570,13 @@ class Interp(object):
             env.locals[nm] = self.havoc_value(kind, "%s.%s" % (lname.split("/")[-1], nm))
         allowed = set()
         for path in spec.havoc_fields:
+            if path.endswith(".*"):
+                # the object's (opaque) internal state may change; nothing the function reads afterwards
+                obj, fld = self.resolve_path(env.locals, path[:-2] + "._", st)
+                allowed.add((id(obj), "*"))
+                continue
             obj, fld = self.resolve_path(env.locals, path, st)
-            cur = self.get_attr(obj, fld, st)
+            cur = self.get_attr(obj, fld, st) if isinstance(obj, Obj) or not hasattr(obj, fld) else getattr(obj, fld)
             newv = self.havoc_value(self.kind_of(cur), "%s.%s" % (lname.split("/")[-1], path))
             self.raw_set(obj, fld, newv)
             ctx.log_write(obj, fld)
@@ -612,7 +620,7 @@ class Interp(object):
                 continue
             if getattr(cont, "fresh", False) and getattr(cont, "alloc_index", -1) >= w0:
                 continue
-            if (id(cont), key) not in allowed:
+            if (id(cont), key) not in allowed and (id(cont), "*") not in allowed:
                 if getattr(cont, "loop_local", False):
                     continue
                 raise Unsupported("loop #%d of %s writes %r.%s which the loop contract does not havoc"
@@ -648,7 +656,10 @@ class Interp(object):
         return items
 
     def raw_set(self, obj, name, v):
-        obj.fields[name] = v
+        if isinstance(obj, Obj):
+            obj.fields[name] = v
+        else:
+            setattr(obj, name, v)
 
     def set_attr(self, base, name, v, node):
         if isinstance(base, OptObj):
@@ -1200,7 +1211,7 @@ class Interp(object):
         kwargs = {}
         for kw in node.keywords:
             if kw.arg is None:
-                v = self.eval(kw.value, env)
+                v = self.deref(self.eval(kw.value, env))
                 if isinstance(v, PyDict):
                     kwargs.update(v.d)
                 elif isinstance(v, Model):
